@@ -35,6 +35,7 @@ impl PanicRec {
 
 thread_local! {
     static LAST: RefCell<Option<PanicRec>> = const { RefCell::new(None) };
+    static DEPTH: std::cell::Cell<u32> = const { std::cell::Cell::new(0) };
 }
 
 pub fn install() {
@@ -47,13 +48,19 @@ pub fn install() {
             "<non-string panic payload>".to_string()
         };
         let (file, line) = info.location().map(|l| (l.file().to_string(), l.line())).unwrap_or(("?".into(), 0));
+        if DEPTH.with(|d| d.get()) == 0 {
+            eprintln!("MACHINERY-FAILURE: panic outside any oracle scope: {msg} at {file}:{line}");
+        }
         LAST.with(|l| *l.borrow_mut() = Some(PanicRec { msg, file, line }));
     }));
 }
 
 pub fn catch<T>(f: impl FnOnce() -> T) -> Result<T, PanicRec> {
     LAST.with(|l| *l.borrow_mut() = None);
-    match panic::catch_unwind(AssertUnwindSafe(f)) {
+    DEPTH.with(|d| d.set(d.get() + 1));
+    let r = panic::catch_unwind(AssertUnwindSafe(f));
+    DEPTH.with(|d| d.set(d.get() - 1));
+    match r {
         Ok(v) => Ok(v),
         Err(_) => Err(LAST.with(|l| l.borrow_mut().take()).unwrap_or(PanicRec {
             msg: "<panic without record>".into(),
